@@ -440,6 +440,9 @@ def handle (s : Sys) (self : Cid) (e : Env) : Sys :=
     -- a dead letter that cannot be delivered (the system has stopped) is dropped
     match e.msg with
     | .deadLetter _ _ _ => s
+    -- a kill that is not executed (poison pill reaching an actor that is already stopping or restarting): the stop
+    -- wins over a restart in progress
+    | .onKill _ => deadLetter (upd s self (fun x => if x.state = .killing then { x with restarting := none } else x)) e
     | _ => deadLetter s e
   else
     -- `behavior := c.behaviorStack.Peek()` is read once, before the message is dispatched
@@ -449,14 +452,17 @@ def handle (s : Sys) (self : Cid) (e : Env) : Sys :=
     | .onKill poison =>
       if c.zombie then doKill s self beh e poison
       else if c.state = .running then doKill (upd s self (fun x => { x with state := .killing })) self beh e poison
-      else s
+      else upd s self (fun x => { x with restarting := none })   -- a kill during a restart that waits for its children: the stop wins
     | .onKilled w => onKilled s self beh e w
     | .supervise chain _ => onSupervise s self chain
     | .cmdPause => upd s self (fun x => { x with paused := true })
     | .cmdResume => upd s self (fun x => { x with paused := false })
     | .restart poison =>
-      let s1 := upd s self (fun x => { x with state := .killing, restarting := some poison })
-      doKill s1 self beh e poison
+      -- `running -> killing` CAS: an actor that is already stopping (or a zombie) ignores the directive
+      if c.state = .running then
+        let s1 := upd s self (fun x => { x with state := .killing, restarting := some poison })
+        doKill s1 self beh e poison
+      else s
     | .watch =>
       match e.sender with
       | some w =>
